@@ -148,6 +148,7 @@ async def scenario_h1(env: Any, case: Dict[str, Any], app: Any) -> Dict[str, Any
     b.send(b"GET /small HTTP/1.1\r\nHost: x\r\nConnection: close\r\n\r\n")
     await env.settle(10.0)
     out["witness"] = b
+    out["witness_rx"] = b.received()  # what it got while the first connection is still stalled
     ev = case["event"]
     if ev == "resume":
         a.resume_reading()
@@ -189,7 +190,7 @@ def judge_h1(case: Dict[str, Any], obs: Any, mult: int) -> Dict[str, Any]:
     if conn.handler_exc is not None:
         raise Violation("handler_exception", repr(conn.handler_exc), backend=be)
     w = val["witness"]
-    resps, left, err = parse_responses(w.received(), ["GET"], w.server_gone)
+    resps, left, err = parse_responses(val.get("witness_rx", w.received()), ["GET"], True)
     if err or len(resps) != 1 or not resps[0].complete or resps[0].body != b"witness":
         raise Violation("witness_blocked", f"second connection not served while the first was "
                         f"stalled: {[r.to_json() for r in resps]} {err}", backend=be)
@@ -272,7 +273,8 @@ async def scenario_h2(env: Any, case: Dict[str, Any], app: Any, ws: bool) -> Dic
             await env.settle(5.0)
             if not client.pump():
                 break
-        out["sibling"] = dict(client.streams.get(sib, {}))
+        out["sibling"] = {k: (bytes(v) if isinstance(v, (bytes, bytearray)) else v)
+                          for k, v in client.streams.get(sib, {}).items()}
     ev = case["event"]
     if ev == "window_update":
         stalls, seen = 0, -1
